@@ -358,6 +358,7 @@ pub fn run_check(cfg: CheckCfg, specs: Vec<WorkerSpec>, corpus_info: Value) -> i
         let r = run_worker(&s, timeout);
         RunRecord { spec: s, res: r }
     });
+    let t_runs = t0.elapsed().as_secs_f64();
     // determinism: re-run a sample, logs must be identical
     let mut det_checked = 0usize;
     let mut det_div = vec![];
@@ -385,6 +386,8 @@ pub fn run_check(cfg: CheckCfg, specs: Vec<WorkerSpec>, corpus_info: Value) -> i
             }
         }
     }
+    let t_det = t0.elapsed().as_secs_f64() - t_runs;
+    eprintln!("[timing] runs {t_runs:.1}s determinism {t_det:.1}s");
     // aggregate
     let mut stats: BTreeMap<String, u64> = BTreeMap::new();
     let mut histories: BTreeSet<u64> = BTreeSet::new();
